@@ -201,6 +201,22 @@ func TieProfile(r *rand.Rand) *profile.Profile {
 			p.Sample = append(p.Sample, neg)
 		}
 	}
+	// several numeric label keys whose units are inconsistent across samples (pprof warns about
+	// each of them; the warnings are part of what a run prints)
+	if r.Intn(2) == 0 {
+		for i, smp := range p.Sample {
+			if smp.NumLabel == nil {
+				smp.NumLabel = map[string][]int64{}
+			}
+			if smp.NumUnit == nil {
+				smp.NumUnit = map[string][]string{}
+			}
+			for _, k := range []string{"ka", "kb", "kc"} {
+				smp.NumLabel[k] = []int64{int64(1 + i)}
+				smp.NumUnit[k] = []string{[]string{"bytes", "kb", "mb"}[(i+len(k))%3]}
+			}
+		}
+	}
 	// twins: a second location at the same address of the same binary with other line
 	// information (the same code symbolized against another source revision), used by some samples
 	if r.Intn(2) == 0 && len(p.Location) > 0 {
@@ -276,13 +292,15 @@ func render(p *profile.Profile, s spec) ([]byte, string) {
 		}
 		strs[k] = v
 	}
-	out, _, res := drv.ReportObj(&drv.FakeObj{Prof: p, Symbolize: strs["symbolize"] != ""}, map[string]*profile.Profile{"p": p}, []string{"p"}, s.bools, strs, ints)
+	out, ui, res := drv.ReportObj(&drv.FakeObj{Prof: p, Symbolize: strs["symbolize"] != ""}, map[string]*profile.Profile{"p": p}, []string{"p"}, s.bools, strs, ints)
 	if res.Panic != "" {
 		return nil, "panic: " + res.Panic
 	}
 	if res.Err != nil {
 		return []byte("ERROR: " + res.Err.Error()), ""
 	}
+	// what the run printed for the user (warnings) is part of its output
+	msgs := "\nMESSAGES:\n" + strings.Join(ui.Errs, "\n")
 	b := []byte(out)
 	if len(b) > 2 && b[0] == 0x1f && b[1] == 0x8b {
 		if zr, err := gzip.NewReader(bytes.NewReader(b)); err == nil {
@@ -291,7 +309,7 @@ func render(p *profile.Profile, s spec) ([]byte, string) {
 			}
 		}
 	}
-	return b, ""
+	return append(b, msgs...), ""
 }
 
 func firstDiff(a, b []byte) string {
@@ -486,7 +504,7 @@ func init() {
 	harness.Register(&harness.Check{
 		ID:          "C08",
 		Level:       "exploration",
-		Rule:        "part orderlaws: tie-rich element sets of 3..6 distinct elements (values in {0,+-1,+-2,+-5}, equal names at different addresses/files/binaries) - EVERY permutation (6..720) is sorted by SortTags (flat, cum) and Nodes.Sort (7 orders incl. entropy with random edges); EdgeMap.Sort is repeated 60x (its input order is a map); the result sequence must be unique (sort.Sort is an insertion sort at these sizes, so any pair the comparator leaves unordered yields two results). part e2e: tie-class profiles (values -2..2, +/- cancelling diff shapes, equal names in several files, duplicate label values, comments and header fields, twin locations at one address with different line information) x 31 format/option combinations (top, tree, peek, dot, dot+call_tree, callgrind(+call_tree), tags, traces, raw, proto (gunzipped), topproto, tagroot/tagleaf; with and without nodecount; disasm through a fake object tool whose instructions carry no line information; proto/raw under show_from, focus+hide, prune_from, tagfocus+taghide; proto/raw/top with -symbolize=local through the real symbolizer over a fake object tool that names every address) rendered 8x in one process (fresh map seeds each time) plus web /top /flamegraph /peek /source on two servers; all byte strings equal. part xproc: the same renderings in 3 fresh processes. part fetchorder: 2-6 sources differing in main binary and comments fetched through the gated fetcher under 4 forced completion orders x 6 formats; bytes must be equal. non-trivial = every case; distinct = element set / profile shape",
+		Rule:        "part orderlaws: tie-rich element sets of 3..6 distinct elements (values in {0,+-1,+-2,+-5}, equal names at different addresses/files/binaries) - EVERY permutation (6..720) is sorted by SortTags (flat, cum) and Nodes.Sort (7 orders incl. entropy with random edges); EdgeMap.Sort is repeated 60x (its input order is a map); the result sequence must be unique (sort.Sort is an insertion sort at these sizes, so any pair the comparator leaves unordered yields two results). part e2e: tie-class profiles (values -2..2, +/- cancelling diff shapes, equal names in several files, duplicate label values, comments and header fields, twin locations at one address with different line information) x 31 format/option combinations (top, tree, peek, dot, dot+call_tree, callgrind(+call_tree), tags, traces, raw, proto (gunzipped), topproto, tagroot/tagleaf; with and without nodecount; disasm through a fake object tool whose instructions carry no line information; proto/raw under show_from, focus+hide, prune_from, tagfocus+taghide; proto/raw/top with -symbolize=local through the real symbolizer over a fake object tool that names every address) rendered 8x in one process (fresh map seeds each time) plus web /top /flamegraph /peek /source on two servers; all byte strings (report bytes plus the messages printed for the user, e.g. unit warnings) equal. part xproc: the same renderings in 3 fresh processes. part fetchorder: 2-6 sources differing in main binary and comments fetched through the gated fetcher under 4 forced completion orders x 6 formats; bytes must be equal. non-trivial = every case; distinct = element set / profile shape",
 		Assumptions: []string{"elements of one sort call have distinct identities (names of tags within a node, NodeInfo of nodes in a graph), as in pprof's own data structures", "schedule coverage = map-iteration seeds of repeated runs and fresh processes, plus forced fetch completion orders (more of them in C16)"},
 		Parts: []harness.Part{
 			{Name: "orderlaws", Quick: 3000, Thor: 100000, Run: runOrderLaws},
